@@ -9,7 +9,7 @@
    the hand model).  Guards that cannot fire on the shape of an embedded net (Python
    type tests, legal_ops membership, destination count, memid consistency) are
    shown not to fire. *)
-From PyRTL Require Import Netlist.Sanity Gen.SanityNet.
+From PyRTL Require Import Netlist.Sanity Gen.SanityNet Netlist.Accepted.
 From Coq Require Import ZArith List Bool Lia ZifyBool.
 Import ListNotations.
 
@@ -127,3 +127,7 @@ Proof.
   assert (Hr : rejects (shape_of nl n) = true) by (unfold rejects; rewrite E; reflexivity).
   rewrite (source_guard_rejects nl n Hn Hr) in Hs. discriminate.
 Qed.
+
+(* the harness's copy of the side condition is the one the theorems use *)
+Lemma comb_dest_not_reg_b_eq nl : comb_dest_not_reg_b nl = comb_dest_not_reg nl.
+Proof. reflexivity. Qed.
